@@ -30,8 +30,20 @@ impl SelectState {
         }
     }
 
-    pub(crate) fn update_frame_id(&mut self, new_frame_id: u32) {
-        self.frame_id = new_frame_id;
+    /// A retransmission of the SELECT itself keeps the SELECT/OPERATE pair adjacent.
+    ///
+    /// The frame id is only re-based if the repeated request really is the recorded SELECT
+    /// (same sequence number and same objects). Re-basing on the repeat of any other request
+    /// would let a stale SELECT match an OPERATE that does not directly follow it.
+    pub(crate) fn update_frame_id_on_repeat(
+        &mut self,
+        seq: Sequence,
+        object_hash: u64,
+        new_frame_id: u32,
+    ) {
+        if self.seq == seq && self.object_hash == object_hash {
+            self.frame_id = new_frame_id;
+        }
     }
 
     pub(crate) fn match_operate(
